@@ -1101,7 +1101,19 @@ void Run::checkDatabase(const char* when) {
     else {
       std::vector<DepRec> got;
       for (auto d : r.dependencies) got.push_back({del.getKeyForID(d.keyID).str(), d.orderOnly, d.singleUse});
-      if (!(got == row.deps)) {
+      // The engine records a dependency when the request is finally serviced, which is later than
+      // the request call whenever the requested rule first has to be scanned; the list is therefore
+      // compared as a multiset of (key, flags).  Order preservation by the database is decided
+      // behaviourally by the restart differential (scan order of the next build).
+      auto canon = [](std::vector<DepRec> v) {
+        std::sort(v.begin(), v.end(), [](const DepRec& a, const DepRec& b) {
+          if (a.key != b.key) return a.key < b.key;
+          if (a.orderOnly != b.orderOnly) return a.orderOnly < b.orderOnly;
+          return a.singleUse < b.singleUse;
+        });
+        return v;
+      };
+      if (!(canon(got) == canon(row.deps))) {
         why = "dependency list differs: stored [";
         for (auto& d : got) why += util::printable(d.key, 12) + (d.orderOnly ? "/o" : "") + (d.singleUse ? "/s" : "") + " ";
         why += "] recorded [";
@@ -1307,7 +1319,7 @@ void Run::execute() {
     if (kind == "build") {
       int k = (int)op.getn("k");
       const RuleSpec* t = prog.get(k);
-      nullBuildExpected = t && !changedSince && lastOkTarget == t->key && !op.find("cancel");
+      nullBuildExpected = t && !changedSince && lastOkTarget == t->key && !op.find("cancel") && invalidOnce.empty();
       opBuild(op);
     } else if (kind == "set") {
       int k = (int)op.getn("k");
